@@ -107,6 +107,10 @@ fn adapters(ns: &[usize]) -> Vec<Kind> {
         v.push(Kind::Tbu(n));
         v.push(Kind::Tbo(n));
         v.push(Kind::Fec(n));
+        if n == 2 {
+            // futures with a zero-sized output through the ordered adapter
+            v.push(Kind::BoZ(n));
+        }
     }
     v
 }
@@ -422,7 +426,7 @@ pub fn scenarios(prop: &str, tier: &str) -> Vec<Cfg> {
                     v.push(c);
                 }
             }
-            for k in [Kind::Bo(1), Kind::Bo(2), Kind::Bo(3), Kind::Tbo(1), Kind::Tbo(2), Kind::Tbo(3)] {
+            for k in [Kind::Bo(1), Kind::Bo(2), Kind::Bo(3), Kind::Tbo(1), Kind::Tbo(2), Kind::Tbo(3), Kind::BoZ(2)] {
                 v.push(adapter_cfg("C04", k, 4, HintShape::Exact, d + 1, 3));
             }
             let jn = if thorough { 5 } else { 4 };
@@ -782,6 +786,44 @@ pub fn scenarios(prop: &str, tier: &str) -> Vec<Cfg> {
                 c.focus = focus_of(c.prefill.len());
                 v.push(c);
             }
+            // the newest (largest) group runs empty while older groups still hold polled streams
+            for (n, special) in [
+                (33usize, vec![(32usize, "")]),
+                (33, vec![(32, "I")]),
+                (34, vec![(32, ""), (33, "I")]),
+                (97, vec![(96, "")]),
+                (97, vec![(0, "I"), (96, "I")]),
+            ] {
+              for unpin in [false, true] {
+                let (k, pre) = mu_prefilled(n, &special);
+                let k = if unpin { Kind::MuU(n) } else { k };
+                let mut c = Cfg::new("C08", k);
+                c.name = format!("{:?} newest group ends first {:?}", k, special);
+                c.prefill = pre;
+                c.specs = vec![s("P")];
+                c.ops = ops::POLL | ops::COMPLETE | ops::PUSH | ops::MOVE;
+                c.costly = ops::COMPLETE | ops::MOVE;
+                c.delta = 1;
+                c.depth = 4;
+                c.epilogue = Epilogue::Drain;
+                c.horizon = 4000;
+                c.focus = focus_of(c.prefill.len());
+                v.push(c);
+              }
+            }
+            // the small merge scenarios once more with `Unpin` sources that live in the slots themselves
+            for (k, pre) in family_m() {
+                if let Kind::Mu(n) = k {
+                    let mut c = Cfg::new("C08", Kind::MuU(n));
+                    c.name = format!("MuU({})[{}]", n, pre.iter().map(|p| p.render()).collect::<Vec<_>>().join(","));
+                    c.prefill = pre;
+                    c.specs = vec![s("IP"), s("P")];
+                    c.ops = ops::POLL | ops::COMPLETE | ops::PUSH | ops::MOVE;
+                    c.depth = d;
+                    c.epilogue = Epilogue::Drain;
+                    v.push(c);
+                }
+            }
             // groups with more than 32 slots in use, growing after some children were polled
             for (k, n) in [
                 (Kind::Fub(70), 31usize),
@@ -843,13 +885,13 @@ pub fn scenarios(prop: &str, tier: &str) -> Vec<Cfg> {
             let d = if thorough { 12 } else { 8 };
             let delta = if thorough { 4 } else { 3 };
             let kinds: Vec<Kind> = if p == "C16" {
-                vec![Kind::Bo(1), Kind::Bo(2), Kind::Bo(3), Kind::Tbo(1), Kind::Tbo(2), Kind::Tbo(3)]
+                vec![Kind::Bo(1), Kind::Bo(2), Kind::Bo(3), Kind::Tbo(1), Kind::Tbo(2), Kind::Tbo(3), Kind::BoZ(1), Kind::BoZ(2), Kind::BoZ(3)]
             } else {
                 adapters(&[1, 2, 3])
             };
             for k in kinds {
                 let n = match k {
-                    Kind::Bu(n) | Kind::Bo(n) | Kind::Tbu(n) | Kind::Tbo(n) | Kind::Fec(n) => n,
+                    Kind::Bu(n) | Kind::Bo(n) | Kind::Tbu(n) | Kind::Tbo(n) | Kind::Fec(n) | Kind::BoZ(n) => n,
                     _ => 0,
                 };
                 let lens: Vec<usize> = if p == "C16" { vec![n + 1, n + 4, 1000] } else { vec![0, 1, n + 2] };
@@ -875,6 +917,15 @@ pub fn scenarios(prop: &str, tier: &str) -> Vec<Cfg> {
                         w3.name = format!("{} (panicking futures among them)", w3.name);
                         w3.up_modes = [Mode::Gate, Mode::Ready, Mode::PanicOnce];
                         v.push(w3);
+                    }
+                    if let Kind::Fec(_) = k {
+                        if len >= 1 {
+                            // the closure itself panics for some items (caught by the caller, polled on)
+                            let mut w4 = c.clone();
+                            w4.name = format!("{} (the closure panics for some items)", w4.name);
+                            w4.up_closure_panic = true;
+                            v.push(w4);
+                        }
                     }
                     v.push(c);
                 }
@@ -1072,6 +1123,14 @@ pub fn scenarios(prop: &str, tier: &str) -> Vec<Cfg> {
                 positions.sort();
                 positions.dedup();
                 for &pos in &positions {
+                    if n >= 32 {
+                        // "take an item, add a stream": a source that ends at once is pushed before every poll
+                        add(Kind::Mu(n + 1), n, pos, Pop::Omega, &mut v);
+                        let c = v.last_mut().unwrap();
+                        c.name = format!("{} (a push before every poll)", c.name);
+                        c.specs = vec![s("")];
+                        c.starve_push = true;
+                    }
                     add(Kind::Mu(n + 1), n, pos, Pop::Omega, &mut v);
                     add(Kind::Mb(n + 1), n, pos, Pop::Omega, &mut v);
                     for pop in [Pop::YieldInf, Pop::Ready, Pop::Ring] {
@@ -1363,15 +1422,16 @@ pub fn scenarios(prop: &str, tier: &str) -> Vec<Cfg> {
             v.push(c);
         }
     }
-    // Every free-form scenario gets the whole API surface and the whole environment, whatever the
-    // property: refused and panicking pushes, `extend`, a task waker that changes between polls, and
-    // a child wake that lands while the task waker is being registered. They are deviations (they
-    // share the scenario's budget; a scenario without a budget gets one deviation), so the histories
-    // explored before are a subset of the histories explored now.
-    // (where that is too expensive for the quick tier, the augmented alphabet runs one level shallower
-    // next to the original scenario)
+    // Every free-form scenario gets the whole API surface, the whole environment and every kind of
+    // child, whatever the property: refused and panicking pushes, `extend` (also with an empty
+    // iterator), a task waker that changes between polls, a child wake that lands while the task
+    // waker is being registered, and the kinds of scripted futures (or sources) the scenario does not
+    // list. All of these are deviations: they share the scenario's budget (a scenario without one gets
+    // 1 deviation in the quick tier, 2 in the thorough tier), so the histories explored before are a
+    // subset of the histories explored now. Where that is too expensive for the quick tier, the
+    // augmented scenario runs `cut` levels shallower next to the unchanged original.
     let cut: usize = match (prop, thorough) {
-        ("C15", false) | ("C02", false) => 1,
+        ("C02", false) | ("C04", false) | ("C05", false) | ("C08", false) | ("C12", false) | ("C15", false) => 1,
         _ => 0,
     };
     let mut shallow: Vec<Cfg> = vec![];
@@ -1379,43 +1439,65 @@ pub fn scenarios(prop: &str, tier: &str) -> Vec<Cfg> {
         if c.prefill.len() > 8 || c.dormant || c.ops & ops::POLL == 0 {
             continue;
         }
-        let original = c.clone();
-        let mut extra = 0u32;
-        extra |= ops::POLL_NEW;
-        if !c.kind.is_join() && c.ops & ops::POLL_HOOK == 0 {
+        let mut a = c.clone();
+        // --- operations
+        let mut extra = ops::POLL_NEW;
+        if !a.kind.is_join() && a.ops & ops::POLL_HOOK == 0 {
             extra |= ops::POLL_HOOK;
             if !thorough {
-                c.hook_max = 2;
+                a.hook_max = 2;
             }
         }
-        if c.ops & ops::PUSH != 0 && !c.specs.is_empty() && (c.kind.is_collection() || c.kind.is_merge()) {
-            if c.kind.bound().is_some() {
+        let pushes = a.ops & ops::PUSH != 0 && !a.specs.is_empty() && (a.kind.is_collection() || a.kind.is_merge());
+        if pushes {
+            if a.kind.bound().is_some() {
                 extra |= ops::PUSH_WHEN_FULL;
-                if c.prop != "C18" {
+                if a.prop != "C18" {
                     // (a push that panics allocates the panic payload: the panic runtime's allocation, not the crate's)
                     extra |= ops::PANIC_PUSH;
                 }
             }
-            if c.kind.is_ordered() {
+            if a.kind.is_ordered() {
                 extra |= ops::EXTEND | ops::EXTEND_EMPTY;
             }
         }
-        let added = extra & !c.ops;
-        if added == 0 {
+        let added = extra & !a.ops;
+        // --- kinds of children
+        let orig = a.specs.len();
+        if pushes && a.costly_specs_from == usize::MAX && !matches!(a.kind, Kind::FobN(_) | Kind::FubZ(_) | Kind::FuZ(_)) {
+            if a.kind.is_merge() {
+                for sc in ["I", "P", "", "I!", "J", "~"] {
+                    let cand = s(sc);
+                    if !a.specs.iter().any(|x| x.render() == cand.render()) {
+                        a.specs.push(cand);
+                    }
+                }
+            } else {
+                for m in [Mode::Gate, Mode::Ready, Mode::WakeReady, Mode::Yield1, Mode::YieldGate, Mode::PanicOnce, Mode::DropPanic] {
+                    if !a.specs.iter().any(|x| x.mode == m && !x.fail) {
+                        a.specs.push(f(m));
+                    }
+                }
+            }
+        }
+        if added == 0 && a.specs.len() == orig {
             continue;
         }
-        if c.costly == 0 {
+        if a.costly == 0 {
             // no deviation classes so far: everything was free, the additions get a budget of their own
-            c.delta = if thorough { 2 } else { 1 };
+            a.delta = if thorough { 2 } else { 1 };
         }
-        c.ops |= added;
-        c.costly |= added;
-        if cut > 0 && c.depth > cut + 2 {
-            let mut a = c.clone();
+        a.ops |= added;
+        a.costly |= added;
+        if a.specs.len() > orig {
+            a.costly_specs_from = orig;
+        }
+        if cut > 0 && a.depth > cut + 2 {
             a.depth -= cut;
             a.name = format!("{} <full alphabet>", a.name);
             shallow.push(a);
-            *c = original;
+        } else {
+            *c = a;
         }
     }
     v.extend(shallow);
